@@ -210,22 +210,60 @@ func (c *Ctx) ruleEOFScope() {
 		return
 	}
 	pk := g.Pkg
-	ok := false
+	// an error that processKeyword raises itself (it returns the result of a constructor that never returns nil) must
+	// be reached only with "the include stack is not empty" and "the keyword is JSIGHT" established: nothing else may
+	// tell a keyword of an included file from the same keyword in the unsplit document. Form-independent: edge facts,
+	// predicate helpers opened up.
+	gcf := c.cfgOf(g)
+	emptyM := c.P.LookupFunc("scanner", "Stack.Empty")
+	jsightC := c.enumConst("Jsight")
+	notEmpty := func(cond ast.Expr, holds bool) bool {
+		call, ok := ast.Unparen(cond).(*ast.CallExpr)
+		return ok && emptyM != nil && callee(pk, call) == emptyM && !holds
+	}
+	isJsight := func(cond ast.Expr, holds bool) bool {
+		be, ok := ast.Unparen(cond).(*ast.BinaryExpr)
+		if !ok || jsightC == nil || !((be.Op == token.EQL && holds) || (be.Op == token.NEQ && !holds)) {
+			return false
+		}
+		found := false
+		ast.Inspect(be, func(n ast.Node) bool {
+			if e, ok := n.(ast.Expr); ok && constObj(pk, e) == jsightC {
+				found = true
+			}
+			return true
+		})
+		return found
+	}
+	own, bad := 0, 0
 	ast.Inspect(g.Decl.Body, func(n ast.Node) bool {
-		ifs, isIf := n.(*ast.IfStmt)
-		if !isIf || !returnsNonNilError(pk, ifs.Body.List) {
+		if _, isLit := n.(*ast.FuncLit); isLit {
+			return false
+		}
+		ret, isRet := n.(*ast.ReturnStmt)
+		if !isRet || len(ret.Results) != 1 {
 			return true
 		}
-		s := exprString(ifs.Cond)
-		if strings.Contains(s, "Jsight") && strings.Contains(s, "!") && strings.Contains(s, "Empty()") {
-			ok = true
+		call, isCall := ast.Unparen(ret.Results[0]).(*ast.CallExpr)
+		if !isCall {
+			return true
+		}
+		cal := callee(pk, call)
+		if cal == nil || !c.alwaysNonNil(cal) {
+			return true
+		}
+		own++
+		if !gcf.establishedAt(ret, notEmpty, nil) {
+			bad++
+			r.Bad("C09-EOF-SCOPE", "processKeyword", "an error raised for a keyword is not conditioned on the include stack being non-empty: the keyword is refused in the unsplit document as well, or only there", c.pos(ret.Pos()))
+		} else if !gcf.establishedAt(ret, isJsight, nil) {
+			bad++
+			r.Bad("C09-EOF-SCOPE", "processKeyword", "an error raised for a keyword of an included file is not restricted to JSIGHT: a directive that is legal in the unsplit document is refused after the split", c.pos(ret.Pos()))
 		}
 		return true
 	})
-	if ok {
-		r.Ok("C09-EOF-SCOPE", "processKeyword", "JSIGHT is refused only when the include stack is not empty", c.pos(g.Decl.Pos()))
-	} else {
-		r.Bad("C09-EOF-SCOPE", "processKeyword", "the JSIGHT-in-included-file test is not conditioned on the include stack", c.pos(g.Decl.Pos()))
+	if bad == 0 {
+		r.Ok("C09-EOF-SCOPE", "processKeyword", fmt.Sprintf("%d error(s) raised by the keyword step itself, each only for JSIGHT with a non-empty include stack", own), c.pos(g.Decl.Pos()))
 	}
 }
 
